@@ -98,6 +98,14 @@ def encode_assignment(spa, asg):
             if acc.bitpos is None and acc.length == 1:
                 b[acc.pos] = lab & 255
             block = bytes(b)
+        elif acc.read_write is None:           # a read-only output item: store the label's index by plain byte arithmetic
+            idx = acc.items.index(lab)
+            cur = block[acc.pos] if acc.length == 1 else (block[acc.pos] << 8) | block[acc.pos + 1]
+            if acc.bitpos is not None:
+                cur = (cur & ~(acc.bitmask << acc.bitpos)) | ((idx & acc.bitmask) << acc.bitpos)
+            else:
+                cur = idx
+            block = block[:acc.pos] + pystruct.pack(">B" if acc.length == 1 else ">H", cur) + block[acc.pos + acc.length:]
         else:
             spa.captured.clear()
             acc.value = lab                    # GeckoEnumStructAccessor._set_value -> struct.set_value(pos, len, newvalue)
@@ -362,8 +370,12 @@ class Spa:
     def wait(self, t): pass
 spa = Spa(); block = bytes(1024)
 for o, l in asg:
-    spa.cap.clear(); spa.accessors[o].value = l
-    pos, ln, val = spa.cap[-1]
+    a = spa.accessors[o]
+    if a.read_write is None:
+        pos, ln, val = a.pos, a.length, a.items.index(l)      # read-only output item (byte-wide enum): store the index
+    else:
+        spa.cap.clear(); a.value = l
+        pos, ln, val = spa.cap[-1]
     block = block[:pos] + pystruct.pack(">B" if ln == 1 else ">H", val) + block[pos + ln:]
     spa.struct.set_status_block(block)
 f = GeckoFacade(spa); f._update_thread.join(); f._on_connected(spa)
@@ -407,6 +419,14 @@ def check_d10(ctx):
 
 
 # ----------------------------------------------------------------------------------------------------- run
+def cause_of(err):
+    """'AttributeError:_current_temperature_sensor' from "AttributeError: 'X' object has no attribute '_current_temperature_sensor'" """
+    import re
+    et, _, msg = err.partition(":")
+    m = re.search(r"has no attribute '([^']+)'", msg) or re.search(r"'([^']+)'", msg)
+    return et + (":" + m.group(1) if m else "")
+
+
 def platform_pairs(mods):
     plat = {}
     for m in mods:
@@ -437,13 +457,16 @@ def run(ctx):
         sig = {}
         for l in logs:
             sig.setdefault((tuple(l["deviceKeys"]), tuple(l["userDemandKeys"])), []).append(l["file"])
+        seen_csig = set()
         for ci, c in enumerate(cfgs):
             if ctx.quick:
-                use_logs = [logs[ci % len(logs)]["file"]] + ([rng.choice(logs)["file"]] if ci % 4 == 0 else [])
-                n_random, exh = 3, (ci == 0)
+                use_logs = [logs[ci % len(logs)]["file"]] + ([rng.choice(logs)["file"]] if ci % 6 == 0 else [])
+                n_random, exh = 2, (ci == 0)
             else:
                 use_logs = [l["file"] for l in logs]
-                n_random, exh = 30, True
+                csig = (tuple(c["outputKeys"]), tuple(tuple(i["labels"] or ()) for i in c["items"] if i["key"] in c["outputKeys"]))
+                n_random, exh = 12, csig not in seen_csig        # every single output x label once per distinct output layout
+                seen_csig.add(csig)
             try:
                 spa0 = StubSpa(c["file"], use_logs[0])
                 asgs = assignments(ctx, spa0, n_random, exh)
@@ -458,7 +481,8 @@ def run(ctx):
                     viol(ctx, f"pair-import:{c['file']}:{lg}", {"kind": "pair", "cfg": c["file"], "log": lg}, "the pair builds", f"{type(e).__name__}: {e}")
                     continue
                 # thorough: the exhaustive single-output part only once per distinct log signature
-                mine = asgs if (ctx.quick or lg in first_of_sig) else [a for a in asgs if len(a) != 1] + rng.sample([a for a in asgs if len(a) == 1], 8)
+                singles = [a for a in asgs if len(a) == 1]
+                mine = asgs if (ctx.quick or lg in first_of_sig) else [a for a in asgs if len(a) != 1] + rng.sample(singles, min(8, len(singles)))
                 for asg in mine:
                     a_s = asg_str(asg)
                     try:
@@ -471,6 +495,7 @@ def run(ctx):
                     nblk += 1
                     lines.append(f"asg {bid} " + (",".join(f"{p}={v}" for p, v in sorted(changed.items())) or "-"))
                     checks.append(None)
+                    both = []
                     for which, builder in (("async", build_async), ("sync", build_sync)):
                         inp = {"kind": "scan", "cfg": c["file"], "log": lg, "assignment": a_s, "facade": which}
                         spa.struct.set_status_block(block)
@@ -483,13 +508,15 @@ def run(ctx):
                         ctx.count("evaluations")
                         ctx.hist("facades", f"{which}:{mode}")
                         if err is not None and which == "async":
-                            build_fail.setdefault((lg, err.split(":")[0]), (c["file"], a_s, err))
+                            build_fail.setdefault((lg, cause_of(err)), (c["file"], a_s, err))
                         oracle(ctx, f, spa, a_s, which, mode == "full")
-                        lines.append(f"scan {c['file']} {lg} {bid}")
-                        checks.append((which, mode, sections, inp))
+                        both.append((which, mode, sections, inp))
                         if sections["aud"]:
                             nontrivial.add((tuple(l for l in sorted({x.split(":")[0] for x in sections["aud"].split(",")})), pname, which))
                         ctx.hist("user_devices_listed", len(sections["aud"].split(",")) if sections["aud"] else 0)
+                    if both:
+                        lines.append(f"scan {c['file']} {lg} {bid}")      # one model answer serves both facades
+                        checks.append(both)
     for (lg, et), (cf, a_s, err) in sorted(build_fail.items()):
         viol(ctx, f"facade-build:{lg}:{et}", {"kind": "build", "cfg": cf, "log": lg, "assignment": a_s},
              "GeckoAsyncFacade can be built on a shipped cfg/log pair", err)
@@ -508,32 +535,31 @@ def run(ctx):
                     ndis += 1
                     ctx.obligation_broken("correspondence:asg", {"op": lines[i][:100], "model": mo})
                 continue
-            which, mode, sections, inp = ch
             md = parse_dump(mo)
-            if md.get("E") != "ok":
-                bad = ["E"]
-            else:
-                bad = cmp_sections(md, sections, which, mode)
-            if bad:
-                ndis += 1
-                if ndis <= 3:
-                    ctx.obligation_broken(f"correspondence:inventory-model-vs-{which}-facade",
-                                          {"input": inp, "sections": bad, "model": {b: md.get(("s" if which == "sync" and b in ("devices", "get") else "") + b, md.get("E"))[:300] for b in bad},
-                                           "impl": {b: str(sections.get(b))[:300] for b in bad}})
+            for which, mode, sections, inp in ch:
+                bad = ["E"] if md.get("E") != "ok" else cmp_sections(md, sections, which, mode)
+                if bad:
+                    ndis += 1
+                    if ndis <= 3:
+                        ctx.obligation_broken(f"correspondence:inventory-model-vs-{which}-facade",
+                                              {"input": inp, "sections": bad,
+                                               "model": {b: md.get(("s" if which == "sync" and b in ("devices", "get") else "") + b, md.get("E"))[:300] for b in bad},
+                                               "impl": {b: str(sections.get(b))[:300] for b in bad}})
         ctx.cov["correspondence_ops"] = len(lines)
         ctx.cov["correspondence_disagreements"] = ndis
         shown = 0
         for i, ch in enumerate(checks):
-            if ch is not None and ch[2]["pumps"] and ch[2]["lights"] and shown < 3 and (shown == 0 or ch[0] == "sync" or i % 7 == 0):
-                ctx.sample({"op": lines[i], "facade": ch[0], "assignment": ch[3]["assignment"], "impl_aud": ch[2]["aud"][:200], "model": model[i][model[i].find("|E="):][:260]})
+            if ch is not None and ch[0][2]["pumps"] and ch[0][2]["lights"] and shown < 3 and (shown == 0 or i % 7 == 0):
+                ctx.sample({"op": lines[i], "assignment": ch[0][3]["assignment"], "model": model[i][model[i].find("|E="):][:300],
+                            **{f"impl_{w}_actual_user_devices": sec["aud"][:200] for w, _m, sec, _i in ch}})
                 shown += 1
     # ---- D10 on the real code, in subprocesses with fixed hash seeds
     check_d10(ctx)
     ctx.cov["distinct_nontrivial"] = len(nontrivial)
     ctx.cov["blocks"] = nblk
     ctx.cov["rule"] = ("per cfg table: zero block, all-'NA', packings of every label of every output (every device prefix), one device on several "
-                       "outputs, one assignment of every subset size, seeded random assignments (quick 3, thorough 30), a raw value beyond the "
-                       "label list, and (quick: first cfg of a platform; thorough: every cfg) every single output x every label; each written "
+                       "outputs, one assignment of every subset size, seeded random assignments (quick 2, thorough 12), a raw value beyond the "
+                       "label list, and (quick: first cfg of a platform; thorough: every distinct output layout of a platform, on one log per distinct device/demand list) every single output x every label; each written "
                        "through the real accessors and scanned by the real async AND threaded facade on (quick) 1-2 logs of the platform / "
                        "(thorough) every log of the platform. distinct_nontrivial = distinct (set of listed user devices, platform, facade) "
                        "with at least one device listed")
